@@ -242,6 +242,76 @@ func checkC36(c *Check) {
 		c.Undecided("udp/window-slot-not-unbound", "IncomingConnection.extendWindow", "", "function not found")
 	}
 
+	// (1a'') sending side: a datagram header carries the first sequence number and a count, so the chunks put into one
+	// datagram are consecutive. In a loop that steps a sequence number and appends chunks to the result, a number may be
+	// skipped (continue) only while nothing has been collected: the skip is preceded in its block by
+	// `if <collected marker> != nil { break }`, or is the skip of numbers below the acknowledged prefix (they precede
+	// every collected number because the loop counts upwards)
+	if ir := r.ir("pkg/rpc/udp.OutgoingConnection.GetChunksToSend"); ir != nil {
+		n := 0
+		walkBlock(ir.Body, nil, func(nd Node, _ []Guard) {
+			lp, ok := nd.(*LoopN)
+			if !ok || lp.Cond == nil {
+				return
+			}
+			// the collecting loop: appends to the result parameter and records a marker just before
+			marker, appends := "", false
+			for i, st := range lp.Body {
+				if cn, isC := st.(*CallN); isC && cn.Builtin == "append" && len(cn.Results) == 1 && len(cn.Args) >= 1 && cn.Args[0] == cn.Results[0] && strings.HasPrefix(cn.Results[0], "val") {
+					appends = true
+					if i > 0 {
+						if as, isA := lp.Body[i-1].(*AssignN); isA && len(as.LHS) == 1 && localRx.MatchString(as.LHS[0]) {
+							marker = as.LHS[0]
+						}
+					}
+				}
+			}
+			m := regexp.MustCompile(`^\((\S+) <= `).FindStringSubmatch(lp.Cond.String())
+			if !appends || marker == "" || m == nil {
+				return
+			}
+			counter := m[1]
+			var visit func(b Block, guard string)
+			visit = func(b Block, guard string) {
+				for i, st := range b {
+					switch st := st.(type) {
+					case *IfN:
+						visit(st.Then, st.Cond.String())
+						visit(st.Else, "")
+					case *BranchN:
+						if st.Tok != token.CONTINUE {
+							continue
+						}
+						n++
+						ok := false
+						why := "a sequence number is skipped after chunks were collected: the datagram would carry non-consecutive chunks under consecutive numbers"
+						for _, prev := range b[:i] {
+							if in, isIf := prev.(*IfN); isIf && in.Cond.String() == "("+marker+" != nil)" && len(in.Then) == 1 {
+								if br, isB := in.Then[0].(*BranchN); isB && br.Tok == token.BREAK {
+									ok, why = true, "preceded by `if "+marker+" != nil { break }`"
+								}
+							}
+						}
+						if !ok && guard == "("+counter+" < item.ackSeqNoPrefix)" {
+							bookkeeping := true
+							for _, prev := range b[:i] {
+								if as, isA := prev.(*AssignN); !isA || len(as.LHS) != 1 || !strings.HasPrefix(as.LHS[0], "item.") {
+									bookkeeping = false
+								}
+							}
+							if bookkeeping {
+								ok, why = true, "skips numbers below the acknowledged prefix: they precede every collected number (the loop counts upwards)"
+							}
+						}
+						c.Ob("udp/datagram-chunks-consecutive", fmt.Sprintf("OutgoingConnection.GetChunksToSend/skip#%d", n), ok, r.pos(st.Pos), why)
+					}
+				}
+			}
+			visit(lp.Body, "")
+		})
+		c.Floor("udp/datagram-chunks-consecutive", 2)
+	}
+
 	// (1b) lockset for the state shared between goroutines under writeMu
 	{
 		r2 := &repoCtx{c: c, co: r.co, funcs: map[string]*FuncInfo{}}
